@@ -126,6 +126,21 @@ func init() {
 		_, na := ex.timeParts(args[0])
 		done(na)
 	})
+	reg(tm+"Unix", func(ex *Exec, g *G, fn *ssa.Function, args []Value, done func(Value)) {
+		_, na := ex.timeParts(args[0])
+		if na.IsConst() {
+			v, _ := concInt(na)
+			q := v / nsPerSec
+			if v%nsPerSec < 0 {
+				q--
+			}
+			done(ex.intC(q))
+			return
+		}
+		// seconds of a symbolic instant: an unconstrained value would be unsound to reason about, a division is
+		// undecidable in practice; the only use in the code under test is seeding math/rand, which is opaque anyway
+		done(ex.input("unix-seconds", "int64", smt.BV(64)))
+	})
 	reg(tm+"UTC|"+tm+"Local|"+tm+"Round|"+tm+"In", func(ex *Exec, g *G, fn *ssa.Function, args []Value, done func(Value)) {
 		if fn.Name() == "Round" {
 			if d, ok := concInt(args[1]); !ok || d != 0 {
